@@ -1,6 +1,8 @@
 pub mod c0104;
+pub mod c05;
 pub mod c06;
 pub mod c07;
+pub mod c08;
 pub mod c0911;
 pub mod c12;
 pub mod c13;
@@ -14,5 +16,5 @@ pub mod c19;
 use crate::runner::PropDef;
 
 pub fn all() -> Vec<&'static PropDef> {
-    vec![&c0104::C01, &c0104::C02, &c0104::C03, &c0104::C04, &c06::C06, &c07::C07, &c0911::C09, &c0911::C10, &c0911::C11, &c12::C12, &c13::C13, &c14::C14, &c15::C15, &c16::C16, &c17::C17, &c18::C18, &c19::C19]
+    vec![&c0104::C01, &c0104::C02, &c0104::C03, &c0104::C04, &c05::C05, &c06::C06, &c07::C07, &c08::C08, &c0911::C09, &c0911::C10, &c0911::C11, &c12::C12, &c13::C13, &c14::C14, &c15::C15, &c16::C16, &c17::C17, &c18::C18, &c19::C19]
 }
